@@ -4,6 +4,7 @@ package main
 
 import (
 	"go/token"
+	"strings"
 
 	"golang.org/x/tools/go/ssa"
 )
@@ -371,6 +372,24 @@ func c08R3(c *Ctx) {
 					good = true
 					for _, l := range origins(st.Val, originOpts{}) {
 						if z, ok := constInt(l.V); ok && z == 0 {
+							// zero only when there is no real file behind the writer
+							noFile := false
+							for _, fc := range l.facts() {
+								op, x, y, okC := cmpFact(fc)
+								if okC && op == token.EQL && (isNilConst(x) || isNilConst(y)) {
+									for _, v := range []ssa.Value{x, y} {
+										if call, idx := callOf(v); call != nil {
+											id := calleeID(&call.Call)
+											if (idx == 0 && id == tT+"createDirOrFile") || strings.HasSuffix(id, ".getFile") {
+												noFile = true
+											}
+										}
+									}
+								}
+							}
+							if len(l.Via) > 0 && !noFile {
+								good = false
+							}
 							continue
 						}
 						call, _ := callOf(l.V)
